@@ -46,6 +46,9 @@ func (rt *runtime) newRegExpObject(pattern string, flags string) *object {
 			}
 			ignoreCase = true
 			re2flags += "i"
+		default:
+			// ES5 15.10.4.1: any character other than g, i, m is a SyntaxError.
+			panic(rt.panicSyntaxError("Invalid regular expression flags: %s", flags))
 		}
 	}
 
